@@ -679,7 +679,9 @@ pub async fn start_replication_thread(
                                     op_log_id_in,
                                 )
                             })
-                            .fold(Ok(0), |y, x| match (y, x) {
+                            // The message keeps its own id: under a shared id (0) a second snapshot
+                            // replicated before the first was acknowledged was sent as a copy of the first
+                            .fold(Ok(op_log_id_in), |y, x| match (y, x) {
                                 (Ok(id), Ok(_)) => Ok(id),
                                 (Err(e), _) => Err(e),
                                 (_, Err(e)) => Err(e),
